@@ -752,8 +752,8 @@ class Dataset(ABC):
         if split not in ["train", "val", "test"]:
             raise ValueError(f"The split named '{split}' is not available. "
                              f"Needs to be either 'train', 'val', or 'test'.")
-        indices = self.df.index[self.df[self.split_col] ==
-                                SPLIT_TO_NUM[split]].tolist()
+        mask = (self.df[self.split_col] == SPLIT_TO_NUM[split]).to_numpy()
+        indices = mask.nonzero()[0].tolist()
         return self[indices]
 
     def split(self) -> tuple[Dataset, Dataset, Dataset]:
